@@ -21,6 +21,10 @@ DIAG = "diagnostic path (arguments of trace! / debug-only instruction trace): de
 OFFS = "byte offsets computed by char_indices()/len() of the same string with start <= end (char_substring_offset / nth); units checked by R15a"
 
 TRIAGE = [
+    (r"^marwood_wasm::Marwood::autocomplete$", r"unwrap", "chars().last() of a text tested non-empty in the same condition (short-circuit `||`)", r"Chars.*last"),
+    (r"^marwood_wasm::Marwood::eval$", r"index", INV_SPAN),
+    (r"highlight_char$", r"Overflow\(Add\)", "pos is rustyline's cursor, a byte offset into the line: pos <= line.len() <= isize::MAX"),
+    (r"^marwood_repl::main$", r"unwrap", "start-up of the line editor, before any text is read: not reachable from input"),
     (r"^lex::Token::span", r".", INV_SPAN),
     (r"^lex::scan_simple_token$", r"panic", "R06c/R11c(i): lex::scan dispatches here only the characters that have an arm"),
     (r"^lex::scan_string$", r"unwrap", "the loop is left with `terminated` set only after peek() returned the closing quote; nothing is consumed in between"),
@@ -93,6 +97,10 @@ def main():
     sites = [s for s in C06.inventory(F) if not C06.covered_by_r08(s)]
     C06.assign_keys(sites)
     C06.discharge(F, cg, sites)
+    front = C06.front_inventory(F)
+    C06.assign_keys(front)
+    C06.discharge(F, cg, front)
+    sites = sites + front
     out = {}
     unmatched = []
     genuine = []
@@ -105,8 +113,9 @@ def main():
             genuine.append(s)
             continue
         hit = None
-        for a, b, why in TRIAGE:
-            if re.search(a, fn) and re.search(b, kind):
+        for ent in TRIAGE:
+            a, b, why = ent[:3]
+            if re.search(a, fn) and re.search(b, kind) and (len(ent) < 4 or re.search(ent[3], s.shape)):
                 hit = why
                 break
         if hit:
